@@ -1,4 +1,5 @@
 import Oracle.Common
+import Oracle.Conv
 import MageModel.Gen.Emit
 import MageModel.Invoke.Mage
 import MageModel.Invoke.Paths
@@ -19,11 +20,7 @@ def infoOf (j : Json) : R PkgInfo := do
 def optIntOf (j : Json) : Option Int := match j with | .null => none | v => v.getInt?.toOption
 def optBoolOf (j : Json) : Option Bool := match j with | .null => none | v => v.getBool?.toOption
 
-def convOf (j : Json) : R Conv := do
-  let convL := (← (← fld j "conv").getObj?).toList
-  pure { atoi := fun w => (convL.lookup w).bind fun c => optIntOf ((c.getObjVal? "atoi").toOption.getD .null)
-         parseBool := fun w => (convL.lookup w).bind fun c => optBoolOf ((c.getObjVal? "bool").toOption.getD .null)
-         parseDuration := fun w => (convL.lookup w).bind fun c => optIntOf ((c.getObjVal? "dur").toOption.getD .null) }
+def convOf (_j : Json) : R Conv := pure Oracle.Conv.modelConv
 
 /-- "durfmt": {"<ns>": "1m0s", …}: recorded time.Duration.String -/
 def fmtOf (j : Json) : Int → String :=
